@@ -275,6 +275,19 @@ def handle (cmd : String) (args : List Sexp) : Sexp :=
     match Parse.Wire.fmtOf f with
     | some f => .str f.deparse
     | none => Sexp.mk "bad-request" [.str "unknown-constructor"]
+  | "GRAPH", [a, fs] =>
+    match Alg.Wire.assignOf a, Graph.Wire.formatsOf fs with
+    | some a, some fs =>
+      let d := Alg.desugar a
+      let outModes := match fs.find? (·.1 == a.tname) with | some (_, ms, _) => ms | none => []
+      match Graph.toIterationGraphs d fs with
+      | .error .diagonal => Sexp.mk "diagonal" []
+      | .error .missingFormat => Sexp.mk "missing-format" []
+      | .ok [] => Sexp.mk "nokernel" []
+      | .ok (g :: rest) =>
+        Sexp.mk "graph" [Graph.Wire.graphToSexp g, Sexp.ofNat (rest.length + 1),
+          Sexp.ofBool (Graph.lowerable outModes g (.append 0))]
+    | _, _ => Sexp.mk "bad-request" [.str "graph-args"]
   | "EXHAUST", [e, .list refs] =>
     match Graph.Wire.idExprOf e, refs.mapM Sexp.toStr? with
     | some e, some refs => Graph.Wire.idExprToSexp (Graph.exhaustAll e refs)
